@@ -32,6 +32,36 @@ HISTORY = {
     "lists are compared with the documented list filtered by check_on",
     "C20_r4_invariant_ignores_its_a_repr": "missed at first (a_repr only on require/ensure); caught after the invariant scenarios with a "
     "default and a custom a_repr were added",
+    "C01_r5_async_kwargs_from_call_positional_style": "missed at first (no positional-only parameter next to **kwargs in C01's own programs); "
+    "caught after the family of special signatures (sync and async) with colliding keywords was added to C01",
+    "C04_r5_property_base_loop_breaks_at_missing_accessor": "missed at first (every generated property had the accessor under test); caught "
+    "after hierarchies re-define properties read-only in some classes",
+    "C05_r5_defaulted_factory_parameters_not_supplied": "missed at first (the error factory had mandatory parameters only); caught after the "
+    "factory got keyword-only parameters with defaults of their own",
+    "C06_r5_all_counterexample_bypasses_a_repr": "missed at first (counter-examples were ints, whose repr is their configured repr); caught "
+    "after all() runs over records with unsorted keys and rows longer than the repr limit",
+    "C07_r5_speculative_guard_narrowed_to_builtin_errors": "missed at first (never-evaluated parts only raised built-in arithmetic/lookup errors); "
+    "caught after helpers raising a user exception, RuntimeError and OSError were added to never-evaluated comprehension parts",
+    "C08_r5_async_sync_capture_awaits_any_awaitable": "missed at first (captured values were never awaitable objects); caught after the scenario "
+    "with captured __await__ objects and finished futures (identity of OLD.<name>, no await by the checker)",
+    "C10_r5_first_phase_mark_reused_for_postconditions": "missed at first (bodies called other functions only once or twice, so the recursion "
+    "stopped by itself); caught after the directed graphs in which the body calls another checked function every time",
+    "C11_r5_new_wrapper_mark_left_active_when_new_raises": "missed at first (no class constructed by __new__ alone with a raising __new__); caught "
+    "after the faulted-__new__ scenario (hand-written __new__, NamedTuple, unbindable calls)",
+    "C12_r5_asyncio_module_looked_up_at_import": "missed at first (the harness always had asyncio imported before icontract); caught after the "
+    "child processes with the three import orders",
+    "C13_r5_async_method_unmarked_during_body": "missed at first (generated bodies never called members of the same object); caught after the "
+    "nested pairs (a method calling public members of the same object while the invariant is temporarily broken)",
+    "C15_r5_description_from_docstring": "missed at first (the child's condition functions had no docstrings, so -OO stripped nothing); caught "
+    "after docstrings were added to them",
+    "C16_r5_own_postconditions_not_deduplicated": "missed at first (no class created anew from its namespace, no decorator object used twice); "
+    "caught after the re-created class scenario (type(cls)(...), dataclass(slots=True), shared decorator object)",
+    "C18_r5_announcement_memoised_by_qualified_name": "missed at first (all generated classes had distinct qualified names); caught after the "
+    "same-name program (class factory called three times, a name bound again, dataclass(slots=True), hand-made copy)",
+    "C19_r5_reserved_kwarg_check_only_with_var_keyword": "missed at first (reserved keywords were only passed to callables with **kwargs and "
+    "no condition read the placeholders); caught after calls on signatures without ** and conditions reading _ARGS/_KWARGS",
+    "C20_r5_builtin_constants_shown": "missed at first (only arguments were checked for being left out); caught after the grammar names "
+    "NotImplemented, Ellipsis and __debug__ and no entry may be keyed by a name of the builtins module",
 }
 
 
